@@ -331,6 +331,33 @@ theorem indices_rev (n : Nat) : PySlice.indices n none none (-1) = (List.range n
     omega
 
 
+/-! ## `MergeSeq` -/
+
+theorem mergeGetFrom_eq {α : Type} (xss : List (List α)) : ∀ (idx cur : Nat), cur ≤ idx →
+    mergeGetFrom xss idx cur = xss.flatten[idx - cur]? := by
+  induction xss with
+  | nil => intro idx cur _; simp [mergeGetFrom]
+  | cons xs rest ih =>
+    intro idx cur h
+    simp only [mergeGetFrom, List.flatten_cons]
+    by_cases hlt : idx < cur + xs.length
+    · rw [if_pos hlt, List.getElem?_append_left (by omega)]
+    · rw [if_neg hlt, ih idx (cur + xs.length) (by omega), List.getElem?_append_right (by omega)]
+      congr 1; omega
+
+/-- subscripting the chained sequence is subscripting the concatenation of its operands -/
+theorem mergeGet_eq_concat_index {α : Type} (xss : List (List α)) (idx : Nat) :
+    mergeGet xss idx = xss.flatten[idx]? := by
+  unfold mergeGet; rw [mergeGetFrom_eq xss idx 0 (Nat.zero_le _)]; rfl
+
+/-- the objects of `minijinja/src` whose `get_value` has an integer-key path (regenerated by
+    scanning every `impl Object`); each one is subscripted by the C09 harness — a new one stops
+    this from checking -/
+theorem indexable_objects_known :
+    (MJ.Gen.c09IndexableObjects.filter (fun p => p.2 == "int")).map (·.1) =
+      ["filters.rs:GroupTuple", "merge_object.rs:MergeDict", "merge_object.rs:MergeSeq",
+       "object.rs:$vec_type<T>", "object.rs:[T; N]", "tuple.rs:Tuple"] := by decide
+
 /-! ## Python's view of values (specification side) -/
 
 /-- the Python sequence a value stands for: `str`, `bytes`, `tuple`, or a list (sequences and
